@@ -122,6 +122,7 @@ pub fn s1_str(v: String) -> String { v.to_ascii_uppercase() }
 pub fn s2_str(v: String) -> String { v.chars().take(3).collect() }
 pub fn p0_str(v: &str) -> bool { v.contains('@') }
 pub fn p1_str(v: &str) -> bool { v.chars().count() % 2 == 0 }
+pub fn p2_str(v: &str) -> bool { v.as_bytes()[0] != b'x' }      // partial: panics on "" (written only behind not_empty)
 pub fn c0_str(v: &str) -> Result<(), CErr> {
     if v.starts_with('x') { Err(CErr(v.chars().count() as i64)) } else { Ok(()) }
 }
